@@ -306,6 +306,23 @@ def gen_three_states(rng, vi):
     return cases
 
 
+def gen_subscribed_then_unencrypted(rng, vi):
+    """a client subscribes while its link is encrypted, then the link is unencrypted (with / without key) when the
+    application notifies / indicates: nothing of a protected characteristic may be sent; its CCCD is neither readable nor
+    writable; after re-encryption the traffic resumes"""
+    cases = []
+    for d in vi.chars:
+        if not d["cccd"] or not d["vh"]:
+            continue
+        ops = ["sec 0 1 %d" % rng.choice([1, 2, 3]), "in 0 12%s0300 %d" % (le16(d["cccd"]), vi.mtu), "sec 0 0 %d" % rng.choice([0, 1, 2, 3])]
+        for _ in range(2):
+            ops += ["%s %d" % (rng.choice(["notify_uuid", "indicate_uuid", "notify", "indicate"]), d["ci"]), "out 0 %d" % rng.choice([23, vi.mtu, 100]), "in 0 1e 23"]
+        ops += ["in 0 0a%s %d" % (le16(d["cccd"]), vi.mtu), "in 0 12%s0000 %d" % (le16(d["cccd"]), vi.mtu), "in 0 52%s0000 %d" % (le16(d["cccd"]), vi.mtu),
+                "sec 0 1 1", "in 0 0a%s %d" % (le16(d["cccd"]), vi.mtu), "notify_uuid %d" % d["ci"], "indicate_uuid %d" % d["ci"], "out 0 %d" % vi.mtu, "in 0 1e 23", "out 0 %d" % vi.mtu]
+        cases.append(ops)
+    return cases
+
+
 def gen_rw_boundaries(rng, vi):
     """per characteristic value: writes of every length around the size, blob reads at every offset around size and
     MTU, with the variable inspected after every write"""
@@ -341,6 +358,8 @@ def gen_queue_cases(rng, vi):
         return [["in 0 16%s0000aa %d" % (le16(vi.value_handles[0] if vi.value_handles else 1), vi.mtu), "in 0 1801 %d" % vi.mtu, "in 1 1800 %d" % vi.mtu]]
     cases = []
     wr = [d for d in vi.chars if d["vh"] and not d["k1"]]
+    if not wr:
+        return [["in 0 16010000aa %d" % vi.mtu, "in 1 1801 %d" % vi.mtu]]
     for _ in range(6):
         ops = []
         if rng.random() < 0.5:
